@@ -31,6 +31,7 @@ def build(tier, seed):
         tasks.append(Task(f"{PROP}.B.kind[{k}]", PROP, f"cascade:{k}", (lambda k=k: rx_cascade.kind_obligations(PROP, k))))
     tasks.append(Task(f"{PROP}.B.case_closed", PROP, "cascade", lambda: rx_cascade.case_closed_obligations(PROP)))
     tasks.append(Task(f"{PROP}.B.exclusions", PROP, "cascade", lambda: rx_cascade.executable_exclusions(PROP)))
+    tasks.append(Task(f"{PROP}.B.ordered_alt", PROP, "cascade", lambda: rx_cascade.ordered_alt_obligations(PROP)))
     tasks.append(Task(f"{PROP}.S.resub", PROP, "re.sub call sites", lambda: resub.obligations(PROP)))
     tasks.append(bounded_task())
     meta = {
